@@ -890,6 +890,19 @@ def respell_numerals(text, rng):
 	return join_lines(result, eol_text, terminated)
 
 
+def respell_indent(text, rng):
+	"""The same document with the indentation of about half of its indented lines respelt (leading tab <-> four blanks)."""
+	lines, eol_text, terminated = split_lines(text)
+	result = []
+	for line in lines:
+		if line[:1] == '\t' and rng.randrange(2):
+			line = '    ' + line[1:]
+		elif line[:4] == '    ' and rng.randrange(2):
+			line = '\t' + line[4:]
+		result.append(line)
+	return join_lines(result, eol_text, terminated)
+
+
 def split_lines(text):
 	"""(physical lines without line ends, line end, text ends with a line end)"""
 	eol_text = '\r\n' if '\r\n' in text else '\n'
@@ -1029,6 +1042,11 @@ def run(check, unrecognised):
 	# the descriptors must not change.  These texts are not renderings of `render`, so they are outside parse_render and covered by D / P only.
 	for case in [c for c in cases if c['kind'] == 'random'][:150 if check.tier == 'quick' else 3000]:
 		respelt = respell_numerals(case['text'], rng)
+		if respelt != case['text']:
+			cases.append({'kind': 'respelt', 'index': case['index'], 'ds': case['ds'], 'style': case['style'], 'text': respelt})
+	# tab and four blanks are the same indentation (the indenter counts a tab as four columns): documents that mix the two line by line
+	for case in [c for c in cases if c['kind'] == 'random' and c['style']['indent'] in ('\t', '    ')][:100 if check.tier == 'quick' else 2000]:
+		respelt = respell_indent(case['text'], rng)
 		if respelt != case['text']:
 			cases.append({'kind': 'respelt', 'index': case['index'], 'ds': case['ds'], 'style': case['style'], 'text': respelt})
 	corrupt_from = cases[:84:7] + [c for c in cases if c['kind'] == 'random'][:40 if check.tier == 'quick' else 400]
